@@ -74,8 +74,8 @@ package base
 //@     after cv := callresult.0
 //@     after ce := callresult.1
 //@     after cf := callresult.2
-//@   ensures [C02] stopfirst: done ==> result.1 == ce && (ce != nil ==> !result.2) && (ce == nil ==> result.0 == cv && result.2 == cf)
-//@   ensures [C02] ranall: !done ==> k == len(s.StatementList) && s.ReturnStatement == nil && result.1 == nil && !result.2
+//@   ensures [C02,C11] stopfirst: done ==> result.1 == ce && (ce != nil ==> !result.2) && (ce == nil ==> result.0 == cv && result.2 == cf)
+//@   ensures [C02,C11] ranall: !done ==> k == len(s.StatementList) && s.ReturnStatement == nil && result.1 == nil && !result.2
 //@   ensures [C11] failnoflag: result.1 != nil ==> !result.2
 //@   modifies frame evalframe
 //@   loopwrites Vars
@@ -94,23 +94,23 @@ package base
 //@     after ee := callresult.1
 //@   ensures [C11] value: rs.Expression != nil ==> n == 1 && result.1 == ee && (ee == nil ==> result.0 == EV && result.2)
 //@   ensures [C11] failnoflag: result.1 != nil ==> !result.2
-//@   ensures [C02] flag: result.1 == nil ==> result.2
+//@   ensures [C02,C11] flag: result.1 == nil ==> result.2
 //@   ensures [C02] bare: rs.Expression == nil ==> result.0 == RV_zero() && result.1 == nil && n == 0
 //@   modifies frame evalframe
 
 //@ func (*BreakStmt).Evaluate
-//@   props C02
-//@   ensures [C02] sentinel: result.1 == BREAKFLAG && result.1 != nil
+//@   props C02 C11
+//@   ensures [C02,C11] sentinel: result.1 == BREAKFLAG && result.1 != nil
 //@   modifies nothing
 
 //@ func (*ContinueStmt).Evaluate
-//@   props C02
-//@   ensures [C02] sentinel: result.1 == CONTINUEFLAG && result.1 != nil
+//@   props C02 C11
+//@   ensures [C02,C11] sentinel: result.1 == CONTINUEFLAG && result.1 != nil
 //@   modifies nothing
 
 // a Statement holds exactly one alternative; the dispatcher evaluates that one, once (C02)
 //@ func (*Statement).Evaluate
-//@   props C02
+//@   props C02 C11
 //@   ghost n int = 0
 //@   ghost cv rv = RV_zero()
 //@   ghost ce error = nil
@@ -170,9 +170,9 @@ package base
 //@     after n := 2
 //@     after cv := callresult.0
 //@     after ce := callresult.1
-//@   ensures [C02] control: n == 1 ==> result.0 == cv && result.1 == ce && result.2 == cf
-//@   ensures [C02] simple: n == 2 ==> result.0 == cv && result.1 == ce && !result.2
-//@   ensures [C02] empty: n == 0 ==> result.1 != nil && !result.2
+//@   ensures [C02,C11] control: n == 1 ==> result.0 == cv && result.1 == ce && result.2 == cf
+//@   ensures [C02,C11] simple: n == 2 ==> result.0 == cv && result.1 == ce && !result.2
+//@   ensures [C02,C11] empty: n == 0 ==> result.1 != nil && !result.2
 //@   modifies frame evalframe
 
 // exact three-way comparison of two integers of any signed/unsigned kind (C01): ilt/ieq compare the 65-bit extensions
@@ -242,7 +242,7 @@ package base
 //@   nopanic own
 
 //@ func (*ElseStmt).Evaluate
-//@   props C02
+//@   props C02 C11
 //@   ghost n int = 0
 //@   ghost cv rv = RV_zero()
 //@   ghost ce error = nil
@@ -253,8 +253,8 @@ package base
 //@     after cv := callresult.0
 //@     after ce := callresult.1
 //@     after cf := callresult.2
-//@   ensures [C02] passthrough: n == 1 ==> result.0 == cv && result.1 == ce && result.2 == cf
-//@   ensures [C02] empty: n == 0 ==> e.StatementList == nil && result.1 == nil && !result.2
+//@   ensures [C02,C11] passthrough: n == 1 ==> result.0 == cv && result.1 == ce && result.2 == cf
+//@   ensures [C02,C11] empty: n == 0 ==> e.StatementList == nil && result.1 == nil && !result.2
 //@   modifies frame evalframe
 
 // if / else-if chain / else: exactly the first branch whose condition is true runs (C02)
@@ -262,7 +262,7 @@ package base
 //   lastc   the last condition evaluated without error and was true;  lerr  it failed
 //   ran     a block was run (at most one)
 //@ func (*IfStmt).Evaluate
-//@   props C02
+//@   props C02 C11
 //@   assume i.Expression != nil
 //@   assume forall qi :: lo(i.ElseIfStmtList) <= qi && qi < hi(i.ElseIfStmtList) ==> at(i.ElseIfStmtList, qi) != nil && at(i.ElseIfStmtList, qi).Expression != nil
 //@   ghost nexp int = 0
@@ -290,9 +290,9 @@ package base
 //@     after cv := callresult.0
 //@     after ce := callresult.1
 //@     after cf := callresult.2
-//@   ensures [C02] outcome: ran == 1 ==> result.0 == cv && result.1 == ce && result.2 == cf
-//@   ensures [C02] conderr: ran == 0 && lerr ==> result.1 == ce && result.1 != nil && !result.2
-//@   ensures [C02] nothing: ran == 0 && !lerr ==> result.1 == nil && !result.2 && nexp >= 1 && ((lastc && nexp == 1 && i.StatementList == nil) || (!lastc && nexp == 1 + len(i.ElseIfStmtList) && i.ElseStmt == nil))
+//@   ensures [C02,C11] outcome: ran == 1 ==> result.0 == cv && result.1 == ce && result.2 == cf
+//@   ensures [C02,C11] conderr: ran == 0 && lerr ==> result.1 == ce && result.1 != nil && !result.2
+//@   ensures [C02,C11] nothing: ran == 0 && !lerr ==> result.1 == nil && !result.2 && nexp >= 1 && ((lastc && nexp == 1 && i.StatementList == nil) || (!lastc && nexp == 1 + len(i.ElseIfStmtList) && i.ElseStmt == nil))
 //@   modifies frame evalframe
 //@   loopwrites Vars
 //@   loop 0 invariant chain: nexp == rangeindex + 2 && 1 <= nexp && nexp <= 1 + len(i.ElseIfStmtList) && ran == 0 && !lerr && !lastc
@@ -302,7 +302,7 @@ package base
 // for init; cond; step { body }   (C02 automaton, C09 cut-off variant)
 //   phase: 0 init pending, 1 cond pending, 2 body pending (cond was true), 3 step pending, 9 finished
 //@ func (*ForStmt).Evaluate
-//@   props C02 C09
+//@   props C02 C09 C11
 //@   assume forStmt.Expression != nil
 //@   assume forall qi :: 0 <= qi && qi < len(forStmt.Assignments) ==> forStmt.Assignments[qi] != nil
 //@   ghost phase int = 0
@@ -329,11 +329,11 @@ package base
 //@     after bf := callresult.2
 //@     after bv := callresult.0
 //@     after last := 3
-//@   ensures [C02] condends: condfalse ==> result.1 == nil && !result.2
-//@   ensures [C02] breakends: phase == 9 && last == 3 && be == BREAKFLAG ==> result.1 == nil && !result.2
-//@   ensures [C02] returnends: phase == 9 && last == 3 && be == nil && bf ==> result.1 == nil && result.2 && result.0 == bv
-//@   ensures [C02] errorends: phase == 9 && be != nil && !(last == 3 && be == BREAKFLAG) ==> result.1 == be && !result.2
-//@   ensures [C02,C09] neverpending: phase == 9 || phase == 0 || (phase == 2 && forStmt.StatementList == nil) || (phase == 1 && result.1 != nil)
+//@   ensures [C02,C11] condends: condfalse ==> result.1 == nil && !result.2
+//@   ensures [C02,C11] breakends: phase == 9 && last == 3 && be == BREAKFLAG ==> result.1 == nil && !result.2
+//@   ensures [C02,C11] returnends: phase == 9 && last == 3 && be == nil && bf ==> result.1 == nil && result.2 && result.0 == bv
+//@   ensures [C02,C11] errorends: phase == 9 && be != nil && !(last == 3 && be == BREAKFLAG) ==> result.1 == be && !result.2
+//@   ensures [C02,C09,C11] neverpending: phase == 9 || phase == 0 || (phase == 2 && forStmt.StatementList == nil) || (phase == 1 && result.1 != nil)
 //@   modifies frame evalframe
 //@   loopwrites Vars
 //@   loop 0 invariant auto: phase == 1 && 0 <= iCount && iCount <= 10000 && !condfalse && len(forStmt.Assignments) >= 2
@@ -546,7 +546,7 @@ package base
 // forRange key := container { body }: the iterator's keys, in iterator order, each bound once before its body run (C02)
 //   iters   keys bound so far;  bodyrun  bodies run;  fin  1 break / 2 return / 3 error / 4 empty body
 //@ func (*ForRangeStmt).Evaluate
-//@   props C02 C09
+//@   props C02 C09 C11
 //@   ghost it iter.Iteration = nil
 //@   ghost n0 int = 0
 //@   ghost iters int = 0
@@ -556,6 +556,7 @@ package base
 //@   ghost bf bool = false
 //@   ghost bv rv = RV_zero()
 //@   ghost lastkey rv = RV_zero()
+//@   ghost bound int = 0
 //@   oncall iter.NewInter
 //@     after it := callresult.0
 //@     after n0 := gget(itrem, callresult.0)
@@ -564,23 +565,24 @@ package base
 //@     after iters := iters + 1
 //@     after lastkey := callresult
 //@   oncall (*context.DataContext).SetValue
-//@     assert [C02] bindkey: arg1 == forRangeStmt.keyName && arg2 == lastkey && iters == bodyrun + 1 && fin == 0
+//@     assert [C02] bindkey: arg1 == forRangeStmt.keyName && arg2 == lastkey && iters == bodyrun + 1 && fin == 0 && bound == bodyrun
+//@     after bound := bound + 1
 //@     after fin := ite(callresult != nil, 3, 0)
 //@     after be := callresult
 //@   oncall (*Statements).Evaluate
-//@     assert [C02] bodyperkey: recv == forRangeStmt.StatementList && iters == bodyrun + 1 && fin == 0
+//@     assert [C02] bodyperkey: recv == forRangeStmt.StatementList && iters == bodyrun + 1 && fin == 0 && bound == iters
 //@     after bodyrun := bodyrun + 1
 //@     after be := callresult.1
 //@     after bf := callresult.2
 //@     after bv := callresult.0
 //@     after fin := ite(callresult.1 == BREAKFLAG, 1, ite(callresult.1 == CONTINUEFLAG, 0, ite(callresult.1 != nil, 3, ite(callresult.2, 2, 0))))
-//@   ensures [C02] allkeys: it != nil && fin == 0 && forRangeStmt.StatementList != nil ==> iters == n0 && bodyrun == n0 && result.1 == nil && !result.2
-//@   ensures [C02] breakends: fin == 1 ==> result.1 == nil && !result.2
-//@   ensures [C02] returnends: fin == 2 ==> result.1 == nil && result.2 && result.0 == bv
-//@   ensures [C02] errorends: fin == 3 ==> result.1 == be && !result.2
+//@   ensures [C02,C11] allkeys: it != nil && fin == 0 && forRangeStmt.StatementList != nil ==> iters == n0 && bodyrun == n0 && result.1 == nil && !result.2
+//@   ensures [C02,C11] breakends: fin == 1 ==> result.1 == nil && !result.2
+//@   ensures [C02,C11] returnends: fin == 2 ==> result.1 == nil && result.2 && result.0 == bv
+//@   ensures [C02,C11] errorends: fin == 3 ==> result.1 == be && !result.2
 //@   modifies frame evalframe
 //@   loopwrites Vars
-//@   loop 0 invariant prog: it != nil && fin == 0 && iters == bodyrun && iters + gget(itrem, it) == n0 && gget(itpos, it) == iters && 0 <= iters && gget(itrem, it) >= 0
+//@   loop 0 invariant prog: it != nil && fin == 0 && iters == bodyrun && bound == iters && iters + gget(itrem, it) == n0 && gget(itpos, it) == iters && 0 <= iters && gget(itrem, it) >= 0
 //@   loop 0 decreases gget(itrem, it)
 
 //@ func (*FunctionCall).Evaluate$1
